@@ -271,6 +271,8 @@ impl Task {
             let ctx = &mut Context::from_waker(waker);
             trace!("Run future");
             let res = unsafe { (header.vtable.run_future)(self.0, ctx) };
+            #[cfg(compio_verif)]
+            crate::verif::sched_point(crate::verif::RUN_POLLED);
             if res.is_ready() {
                 debug!("Task finished");
                 let state = header.state.finish_running();
